@@ -176,6 +176,10 @@ var c04Fixed = [][]string{
 	{"func foo(x) {x + 1}", "func fe(s) {eval(s)}", `fe("foo(2)")`, "foo = macro(x) {quote(unquote(x) * 10)}", `fe("foo(2)")`, `fe("foo(2)")`},
 	{"mm = macro(x) {quote(unquote(x) + 1)}", "func fe(s) {eval(s)}", `fe("mm(2)")`, "mm = macro(x) {quote(unquote(x) + 100)}", `fe("mm(2)")`},
 	{"func fe(s) {eval(s)}", `catch(fe("later(2)")).err`, "later = macro(x) {quote(unquote(x) * 2)}", `fe("later(2)")`, "func later2(x) {x}", `catch(fe("later3(2)")).err`, "func later3(x) {x + 3}", `fe("later3(2)")`},
+	// lambdas with the same text whose free name is a global in one and a captured parameter in the other
+	{"h = x => x * 2", "f = x => h(x)", "f(1)", "func mk(h) {x => h(x)}", "g = mk(y => y + 100)", "g(1)", "f(1)", "g(1)"},
+	{"func mk(h) {x => h(x)}", "g = mk(y => y + 100)", "g(1)", "h = x => x * 2", "f = x => h(x)", "f(1)", "g(1)"},
+	{"n = 5", "f = x => x + n", "f(1)", "func mk2(n) {x => x + n}", "g = mk2(50)", "g(1)", "f(1)", "k = mk2(7)", "k(1)", "g(1)"},
 	// a name used through eval()/unjson()/defun becomes something else
 	{"func fe(s) {eval(s)}", "gq = 1", `fe("gq + 1")`, "gq = 5", `fe("gq + 1")`, "del(gq)", `catch(fe("gq + 1")).err`},
 	{"func fd(n) {defun(\"dd\", [\"x\"], [\"x + \" + str(n)]); dd(1)}", "fd(1)", "fd(2)", "fd(1)", "dd(5)"},
@@ -235,7 +239,8 @@ func (p c04) session(c *fw.Ctx) []string {
 		case 13:
 			in = append(in, "tk("+small()+")", "wt("+small()+")", "wwt("+small()+")")
 		case 14:
-			in = append(in, "many(1, 2, "+small()+", 4, 5)")
+			in = append(in, "many(1, 2, "+small()+", 4, 5)", "many(1, 2, 3, 4, "+small()+")", "many(1, 2, 3, 4, "+small()+")", "va(1, 2, 3, 4, "+small()+", "+small()+")", "va(1, 2, 3, 4, 5, "+small()+")",
+				"many(\"a\", \"b\", \"c\", \"d\", \"x"+small()+"\")", "many(\"a\", \"b\", \"c\", \"d\", \"y"+small()+"\")")
 		case 15:
 			in = append(in, "va(1, "+small()+", "+small()+")", "va("+small()+")")
 		case 16:
